@@ -316,6 +316,17 @@ def nx_connected_components(g: SymGraph):
     return SSet(out)
 
 
+def nx_weakly_connected_components(g):
+    """Components of a directed graph with the directions dropped."""
+    if not g.directed:
+        return nx_connected_components(g)
+    u = SymGraph(g.U, dict(g.node), {})
+    for (a, b), e in g.edge.items():
+        k = frozenset((a, b))
+        u.edge[k] = bor(u.edge.get(k, False), e)
+    return nx_connected_components(u)
+
+
 def nx_is_connected(g: SymGraph):
     record_raise(bnot(bor(*g.node.values())), "NetworkXPointlessConcept", "Connectivity is undefined for the null graph.")
     C = g.conn()
